@@ -1,4 +1,14 @@
 import ChessVerif.Props.C09
+import ChessVerif.Props.C09.Small
+import ChessVerif.Props.C09.Pawn
+import ChessVerif.Props.C09.Between0
+import ChessVerif.Props.C09.Between1
+import ChessVerif.Props.C09.Between2
+import ChessVerif.Props.C09.Between3
+import ChessVerif.Props.C09.Line0
+import ChessVerif.Props.C09.Line1
+import ChessVerif.Props.C09.Line2
+import ChessVerif.Props.C09.Line3
 open Chess.Props.C09
 #print axioms mem_bbOfList
 #print axioms mem_bbOfPred
